@@ -1195,3 +1195,32 @@ PROPS["C12"]["level_note"] += (' ' + _FDL_OS + 'C12_oracle_sound_partial: the ru
 PROPS["C12"]["partial_gap"] += (' Oracle soundness: the rules sweep_bound, post_claim_scan_incomplete and the liveness rule gap_wait_never_ends are NOT yet '
     'covered; the reply rules are covered only for applications that send request telegrams (a response telegram with the own source address from an '
     'application would be taken for a status reply).')
+
+# ---- C15 oracle soundness complete; C13 extraction of visits (agent fc; Proofs/C15Liveness.v, Proofs/C13Visits.v) ---------------------------
+PROPS["C15"]["level_note"] += (' C15_oracle_sound (Proofs/C15Liveness.v), FULL: NO rule of C15 is reported on a model transcript, for ALL input '
+    'histories (total applications, builder-valid parameters, app_sends_data) - the liveness rule R15_no_reply_no_timeout included. The proof keeps, '
+    'while the station waits for a data reply, the relation WA between the second monitor and the station: last_bus_activity = Some l with l <= l_ref '
+    '(on entry both are the predicted end of the request; l moves to `now` only in polls in which the monitor sees something happen: PHY busy, RX growth, '
+    'bytes the station had not counted yet - l_spur), l_txend <= l (so the monitor\'s "the poll looks at the receive buffer" coincides with '
+    'check_for_ongoing_transmision), pending_bytes covers the PHY buffer unless l_spur is set. A poll in AwaitDataResponse that is quiet for the monitor '
+    'then takes the `None` branch of do_await_data_response with l unchanged, check_slot_expired compares exactly l + Tslot < now, and since '
+    'l_ref + Tslot < now the time-out callback is made (adr_poll: the exact bookkeeping of a poll that begins in AwaitDataResponse).')
+PROPS["C15"]["partial_gap"] += (' UPDATE: the liveness rule R15_no_reply_no_timeout is now covered (C15_oracle_sound, full); no rule of C15 of the '
+    'executable monitors is open.')
+PROPS["C13"]["level_note"] += (' EXTRACTION OF VISITS (Proofs/C13Visits.v): visits_of reads the token visits of one station off a `run` history '
+    '(previous token time, token time, deadline, rounds (time, high_prio_only), release). C13_station_visits_ok: for every newly created model '
+    'station, any applications, any events with strictly increasing poll times, EVERY extracted visit satisfies sv_ok = previous token time < token '
+    'time, every round after the arrival and exactly hold_ok, one deadline per visit <= previous token time + TTR (deadline_ok), arrival <= rounds <= '
+    'release. C13_visits_linked: the visit after a completed visit has that visit\'s token time as previous token time (0 after a re-creation of the '
+    'station). C13_rotation_bound_stations: for N MODEL stations (station_history: any applications, any events) the rotation bound TTR + N (C + O) '
+    'follows from RING hypotheses only - the order of the visits (visit ix v of station st v, completed; N visits later the same station\'s next visit; '
+    'no station re-created), and timing_ok C O (message cycle within C, token arrival within O of the release); hold_ok, deadline_ok and the '
+    'previous-arrival link are no longer hypotheses. Explicit core of C, one step from all states: C13_request_starts_wait (the request poll sets '
+    'last_bus_activity = now + 11 bit * |request|) and C13_reply_wait_expires (on a silent bus the first poll later than last_bus_activity + Tslot '
+    'calls handle_timeout), i.e. a cycle without reply ends within 11 bit * |request| + Tslot + poll period.')
+PROPS["C13"]["partial_gap"] += (' UPDATE (C13Visits.v): the extraction of `visit` records from station histories IS now formalised and the '
+    'per-station hypotheses of the rotation bound are discharged (C13_station_visits_ok, C13_visits_linked, C13_rotation_bound_stations). STILL NOT '
+    'proved: that N model stations composed on a shared medium produce histories with the assumed ring order (stable ring, no re-creation) and the '
+    'timing bounds timing_ok C O; C and O are not derived in closed form for a ring (only the silent-bus time-out step of C is: '
+    'C13_reply_wait_expires) - a reply and its reception, synchronisation pauses, poll latency, GAP poll and token hand-over depend on the other '
+    'stations and the medium.')
